@@ -141,14 +141,6 @@ theorem extend_eq (s : PQ π) (es : List (π × Nat)) :
   rw [hloop es s _ (by intro it st; simp <;> omega)]
   simp [lt_eq]
 
-/-- decides every `if` whose condition is integer arithmetic over the facts in the context
-    (whatever way the condition is written, whichever branch comes first) -/
-macro "decide_ifs" : tactic =>
-  `(tactic| simp (disch := omega) only [if_pos, if_neg, decide_eq_true_eq, decide_eq_false_iff_not, bne_iff_ne,
-      beq_iff_eq, ne_eq, Bool.not_eq_true', Bool.not_eq_true, Bool.not_eq_false, Bool.not_true, Bool.not_false,
-      Bool.false_eq_true, Bool.true_eq_false, if_true, if_false, not_true_eq_false, not_false_eq_true,
-      Bool.and_true, Bool.true_and, Bool.or_false, Bool.false_or, Bool.and_eq_true, Bool.or_eq_true])
-
 /-- side conditions of `forLoop_find`: the body steps on where the predicate fails and leaves the
     loop (`break` / `return` / `raise`, whatever follows) where it holds -/
 macro "loop_side" : tactic =>
